@@ -349,6 +349,30 @@ func buildIntrinsics() map[string]intrinsicFn {
 		fr.r.blockForever("verifBlockForever")
 		return nil
 	}
+	// verifRaceTimers(on): timers may fire at any scheduling point (on) or only at quiescence (off)
+	m["verif:verifRaceTimers"] = func(fr *frame, a []value) value {
+		fr.r.raceTimers = a[0].(bool)
+		fr.r.raceSet = true
+		return nil
+	}
+	// verifInvariant(name, f): f is evaluated (atomically) at every scheduling point; it must hold
+	m["verif:verifInvariant"] = func(fr *frame, a []value) value {
+		fr.r.invariants = append(fr.r.invariants, invariantRec{name: a[0].(string), fn: a[1]})
+		return nil
+	}
+	// verifWaitUntil(f): parks the calling thread until the predicate holds
+	m["verif:verifWaitUntil"] = func(fr *frame, a []value) value {
+		r := fr.r
+		pred := a[0]
+		r.blockUntil("verifWaitUntil", func() bool {
+			r.atomicDepth++
+			defer func() { r.atomicDepth-- }()
+			res := r.call(nil, token.NoPos, pred, nil)
+			b, _ := res.(bool)
+			return b
+		})
+		return nil
+	}
 	m["verif:verifTicks"] = func(fr *frame, a []value) value { return int64(fr.r.ticks) }
 	m["verif:verifReplayFailures"] = func(fr *frame, a []value) value { return []value(nil) }
 
